@@ -140,7 +140,22 @@ macro_rules! shape_ops {
                         },
                     }
                 }
-                mina::TimelineBuilder::build(b)
+                // one configuration in four reaches `build` through `Clone::clone_from` into an existing builder whose every
+                // setting differs, one built timeline in four through `clone_from` into another timeline: a copy is a copy
+                if (h >> 11) % 4 == 0 {
+                    let mut dst = <$anim>::timeline().reverse(!cfg.reverse.unwrap_or(false)).delay_seconds(9.0).duration_seconds(7.0)
+                        .repeat(mina::Repeat::Times(2)).default_easing(Easing::InBack).keyframe(<$anim>::keyframe(0.375));
+                    dst.clone_from(&b);
+                    b = dst;
+                }
+                let built = mina::TimelineBuilder::build(b);
+                if (h >> 13) % 4 == 0 {
+                    let mut other = mina::TimelineBuilder::build(<$anim>::timeline().reverse(!cfg.reverse.unwrap_or(false)).delay_seconds(3.0)
+                        .duration_seconds(5.0).repeat(mina::Repeat::Infinite).keyframe(<$anim>::keyframe(0.625)));
+                    other.clone_from(&built);
+                    return other;
+                }
+                built
             }
             fn to_vals(t: &Self::Target) -> Vec<V> { vec![$(t.$f.to_v()),*] }
             fn from_vals(v: &[V]) -> Self::Target {
@@ -181,8 +196,23 @@ shape_ops!(W20Ops, W20, W20, "W20",
           k:"i64":i64, l:"i64":i64, m:"i64":i64, n:"i64":i64, o:"i64":i64, p:"i64":i64, q:"f32":f32, r:"f32":f32, s:"f32":f32, t:"f32":f32],
     anim: [a, b, c, d, e, f, g, h, i, j, k, l, m, n, o, p, q, r, s, t]);
 
-/// a subset marked `#[animate]`; the others must never be touched
-#[derive(Animate, Clone, Debug, Default, PartialEq)]
+thread_local! {
+    /// set by the runner for the duration of `StateAnimator::set_state` / `advance` only
+    pub static IN_ANIMATOR_CALL: std::cell::Cell<bool> = std::cell::Cell::new(false);
+}
+/// runs one call into the animator with `IN_ANIMATOR_CALL` set
+pub fn in_animator_call<R>(f: impl FnOnce() -> R) -> R {
+    struct Reset;
+    impl Drop for Reset { fn drop(&mut self) { IN_ANIMATOR_CALL.with(|c| c.set(false)); } }
+    IN_ANIMATOR_CALL.with(|c| c.set(true));
+    let _reset = Reset;
+    f()
+}
+
+/// a subset marked `#[animate]`; the others must never be touched.  Its `Clone` is observable: a copy made while the
+/// animator is being driven carries a bumped `d` (a revision stamp, as on a target that counts its copies) — the
+/// animator has no business copying or replacing the caller's struct, it writes animated properties into it
+#[derive(Animate, Debug, Default, PartialEq)]
 pub struct Q5 {
     #[animate]
     pub a: f32,
@@ -192,6 +222,12 @@ pub struct Q5 {
     pub d: i32,
     #[animate]
     pub e: f64,
+}
+impl Clone for Q5 {
+    fn clone(&self) -> Self {
+        let bump = IN_ANIMATOR_CALL.with(|c| c.get());
+        Q5 { a: self.a, b: self.b, c: self.c, d: if bump { self.d.wrapping_add(1) } else { self.d }, e: self.e }
+    }
 }
 shape_ops!(Q5Ops, Q5, Q5, "Q5",
     all: [a:"f32":f32, b:"f32":f32, c:"u8":u8, d:"i32":i32, e:"f64":f64],
